@@ -218,7 +218,7 @@ def impl(case):
             if o[1] != et or o[2] != er:
                 viol = ('df_slice(series %r, lb=%r, ub=%r, %r, n=%d) = index %r values %r; taking interval i from series i (column j from series i+j) gives %r %r'
                         % (case['ss'], case.get('lbs'), case.get('ubs'), oc, case['n'], o[1], o[2], et, er))
-            elif len(set(o[1])) != len(o[1]) and _strict(case):
+            elif len(set(o[1])) != len(o[1]) and _strict(case) and closed(oc[0]) != closed(oc[1]):
                 viol = 'a timestamp occurs twice in the stitched result: %r' % (o[1],)
         return {'status': 'ok', 'obs': o, 'viol': viol}
     # unslice round trip
@@ -234,7 +234,12 @@ def impl(case):
         return {'status': name, 'obs': ['ERR', name], 'viol': 'df_slice / df_unslice round trip raised %s: %s' % (name, str(e)[:100])}
     of, of2 = observe(f), observe(f2)
     rs = [[H(u), [[H(i), canon_cell(v)] for i, v in zip(s.index, s.values)]] for u, s in r.items()]
-    if [u for u, _ in rs] != list(case['ubs']):
+    ubs_b = [('at', u) for u in case['ubs']]
+    et, er = expected_stitch([list(map(tuple, s)) for s in case['ss']], [None] + ubs_b[:-1], ubs_b, '(]', case['n'])
+    if of[1] != et or of[2] != er:
+        viol = ('df_slice(series %r, ub=%r, n=%d) = index %r values %r; taking interval i from series i (column j from series i+j) gives %r %r'
+                % (case['ss'], case['ubs'], case['n'], of[1], of[2], et, er))
+    elif [u for u, _ in rs] != list(case['ubs']):
         viol = 'df_unslice returned keys %r for bounds %r' % ([u for u, _ in rs], case['ubs'])
     elif of2 != of:
         viol = ('stitching the series recovered by df_unslice gives index %r values %r, the stitched frame was %r %r (series %r, ub %r, n=%d)'
@@ -277,7 +282,7 @@ def shape(case):
         wrap = ':wrap' if (case['lb'] and case['ub'] and case['lb'][0] == 'tod' and case['ub'][0] == 'tod' and case['lb'][1] > case['ub'][1]) else ''
         return 'slice:%s:%s:%s%s' % (f(case['lb']), f(case['ub']), ocs, wrap)
     if case['kind'] == 'stitch':
-        l = case.get('ubs') or case.get('lbs')
+        l = case['lbs'] if case['mode'] == 'lb' else case['ubs']
         return 'stitch:%s:%s:n%d' % (case['mode'], 'inc' if _dir(l) else 'dec', min(case['n'], 3))
     return 'unslice:n%d' % min(case['n'], 3)
 
@@ -300,6 +305,7 @@ def rand_bound(rng, ts):
     return ['tod', rng.choice([0, 3, 6, 9, 12, 15, 18, 21, 6, 18])]
 
 def slice_case(ts, k, form, lb, ub, oc, vals=None, **kw):
+    if form == 'S': k = 1
     rows = [[100 * (j + 1) + i for j in range(k)] for i in range(len(ts))] if vals is None else vals
     return dict(kw, kind='slice', ts=list(ts), k=k, form=form, rows=rows, lb=lb, ub=ub, oc=oc)
 
@@ -349,7 +355,7 @@ def gen_cases(rng, tier):
         if mode == 'ub': c['ubs'] = ubs[::-1] if dec else ubs
         elif mode == 'lb': c['lbs'] = ubs[::-1] if dec else ubs
         else:
-            lbs = [u - rng.choice([6, 12, 3]) for u in ubs]
+            delta = rng.choice([6, 12, 3]); lbs = [u - delta for u in ubs]
             if rng.random() < 0.5:           # consecutive intervals
                 lbs = [ubs[0] - 24] + ubs[:-1]
             mism = rng.random() < 0.05 and m > 1 and len(set(ubs)) > 1 and len(set(lbs)) > 1
